@@ -670,16 +670,30 @@ class Lexer(object):
         r'|//[^\r\n\u2028\u2029]*(?=[\r\n\u2028\u2029]))+'
     )
 
-    getprop = r'get' + r'(?=' + accessor_gap + identifier + r')'
+    # the property name of an accessor (identifier name, string or number)
+    # and the parenthesis that opens its parameter list
+    accessor_name = (
+        r'(?:' + identifier + r'|' + string + r'|' + t_NUMBER + r')' +
+        r'(?:' + accessor_gap + r')?\(')
+
+    getprop = r'get' + r'(?=' + accessor_gap + accessor_name + r')'
 
     @ply.lex.TOKEN(getprop)
     def t_GETPROP(self, token):
-        return token
+        return self._accessor_or_identifier(token)
 
-    setprop = r'set' + r'(?=' + accessor_gap + identifier + r')'
+    setprop = r'set' + r'(?=' + accessor_gap + accessor_name + r')'
 
     @ply.lex.TOKEN(setprop)
     def t_SETPROP(self, token):
+        return self._accessor_or_identifier(token)
+
+    def _accessor_or_identifier(self, token):
+        # get and set are ordinary identifiers except where a property
+        # assignment may start: after the { of an object literal or a comma
+        prev = self.cur_token_real
+        if prev is None or prev.type not in ('LBRACE', 'COMMA'):
+            token.type = 'ID'
         return token
 
     @ply.lex.TOKEN(identifier)
